@@ -31,6 +31,7 @@ pub fn op_kind(op: &Op) -> &'static str {
         Op::Dec { .. } => "dec",
         Op::Swap { .. } => "swap",
         Op::Update { .. } => "update",
+        Op::Repos { .. } => "reposition",
         Op::CollectFees { .. } => "collect_fees",
         Op::CollectProtocol { .. } => "collect_protocol",
         Op::Clock(_) => "clock",
